@@ -41,7 +41,8 @@ def probe(source, settings, workdir, idx):
 def run_c16(ctx):
     ctx.rule = ("every integer-valued documented key x boundary grid (min-1, min, typical, max, max+1, 255/256/300/"
                 "65535/65536/70000, negatives, 2^31, 2^32, 2^63-1) x both sources through make_config + is_valid_config "
-                "in a child process; missing / unknown keys; seed strings of wrong length or alphabet; non-trivial = "
+                "in a child process; missing / unknown keys; seed strings of wrong length or alphabet; whole configurations: "
+                "product of per-setting classes x client_stats x persistence directory state (none/good/read-only/file/missing); non-trivial = "
                 "distinct (source, key, value) with the value outside the narrow type's range or at a documented bound")
     vlib.prepare(ctx)
     grid = [-70000, -256, -1, 0, 1, 2, 32, 49, 50, 51, 63, 64, 65, 100, 254, 255, 256, 257, 300, 1000, 8686, 65534, 65535,
@@ -112,9 +113,79 @@ def run_c16(ctx):
                           {"cmd": "config", "source": src, "settings": [[k, str(v)] for k, v in settings], "why": why})
         else:
             ctx.nontriv("extra:%s:%s" % (src, why))
+    whole_config_grid(ctx, workdir)
     import shutil
+    subprocess.run(["chmod", "-R", "u+w", workdir])
     shutil.rmtree(workdir, ignore_errors=True)
     proof_verdict(ctx)
+
+
+def whole_config_grid(ctx, workdir):
+    """is_valid_config over WHOLE configurations: the full product of per-setting classes (each
+    setting valid / invalid in its documented ways) x client_stats x the state of the persistence
+    directory x both sources. An invalid value must refuse start-up whatever the other settings are."""
+    import itertools
+    good = os.path.join(workdir, "pd_good"); os.makedirs(good, exist_ok=True)
+    ro = os.path.join(workdir, "pd_readonly"); os.makedirs(ro, exist_ok=True); os.chmod(ro, 0o555)
+    afile = os.path.join(workdir, "pd_file"); open(afile, "w").write("x")
+    missing = os.path.join(workdir, "pd_missing")
+    dirs = {"none": None, "good": good, "readonly": ro, "file": afile, "missing": missing}
+    dirinfo = {"none": "-", "good": "1,1,0", "readonly": "1,1,1", "file": "1,0,0", "missing": "0,0,0"}
+    ports = [0, 8686]
+    ifaces = ["127.0.0.1", None, "not-an-address"]
+    seeds = [(0, None), (31, SEED[:-2]), (32, SEED), (33, SEED + "ab"), (100, SEED * 3 + "00" * 4)]
+    kmss = [0, 1]
+    batches = [0, 1, 64, 65]
+    faults = [50, 51]
+    workers = [0, 1]
+    cstats = [0, 1]
+    combos = list(itertools.product(ports, ifaces, seeds, kmss, batches, faults, workers, cstats, dirs))
+    r = ctx.rng
+    # every pair (invalid setting, client_stats on + each directory state) and a random share of the rest
+    def key(c):
+        port, iface, (sl, _), kms, b, f, w, cs, d = c
+        bad = (port == 0) + (iface != "127.0.0.1") + (sl != 32 if not kms else sl <= 32) + (b in (0, 65)) + (f == 51) + (w == 0)
+        return bad
+    chosen = [c for c in combos if key(c) <= 1] + r.sample([c for c in combos if key(c) > 1], 150 if not ctx.thorough else 2500)
+    cases = []
+    for src in ("File", "Env"):
+        for c in chosen:
+            port, iface, (sl, seedhex), kms, b, f, w, cs, d = c
+            st = [("port", port), ("batch_size", b), ("fault_percentage", f), ("num_workers", w)]
+            if iface is not None:
+                st.append(("interface", iface))
+            if seedhex is not None:
+                st.append(("seed", seedhex))
+            if kms:
+                st.append(("kms_protection", "arn:aws:kms:us-east-2:1:key/k"))
+            st.append(("client_stats", "on" if cs else "off"))
+            if dirs[d] is not None:
+                st.append(("persistence_directory", dirs[d]))
+            addr_ok = iface == "127.0.0.1"
+            mline = "cfgvalid %d %d %d %d %d %d %d %d %s %d" % (port, 1 if iface is None else 0, sl, kms, b, f, w, cs, dirinfo[d], 1 if addr_ok else 0)
+            ok = (port != 0 and iface == "127.0.0.1" and (sl == 32 if not kms else sl > 32) and 1 <= b <= 64 and f <= 50 and w != 0
+                  and (not cs or d == "good"))
+            cases.append((src, st, mline, ok, c))
+    with ThreadPoolExecutor(max_workers=vlib.NCPU) as ex:
+        res = list(ex.map(lambda a: probe(a[1][0], a[1][1], workdir, 200000 + a[0]), enumerate(cases)))
+    model = vlib.run_model([c[2] for c in cases])
+    ctx.evaluations += len(cases)
+    for (src, st, mline, ok, c), (state, info), lm in zip(cases, res, model):
+        rep = {"cmd": "config", "source": src, "settings": [[k, str(v)] for k, v in st], "impl": [state, str(info)[:300]],
+               "model": lm, "model_line": mline, "documented_ok": ok}
+        ctx.count("whole:%s:%s" % (src, state))
+        got = "VALID" if state == "RUN" else ("PANIC" if "panic" in str(info) else "INVALID")
+        if state == "RUN" and not ok:
+            ctx.violation("property", "%s configuration that violates the documented constraints is accepted (is_valid_config = true): %s" % (src, [kv for kv in st if kv[0] not in ("seed",)]), rep); continue
+        if state != "RUN" and ok:
+            ctx.violation("property", "%s configuration inside every documented range is refused: %s" % (src, str(info)[:100]), rep); continue
+        if got != lm:
+            ctx.violation("tie", "model and implementation disagree on is_valid_config: impl %s / model %s" % (got, lm), rep)
+        else:
+            ctx.traces_validated += 1
+            if not ok and c[7] == 1:
+                ctx.nontriv("whole:%s:%s" % (src, mline))
+    os.chmod(ro, 0o755)
 
 
 def replay(ctx, rep):
